@@ -877,12 +877,19 @@ func cmdGen(args []string) int {
 	idx := fs.Int("idx", 0, "")
 	tier := fs.String("tier", "quick", "")
 	run := fs.Bool("run", false, "also execute it and print the outcome")
+	srcOnly := fs.Bool("src", false, "print only the rendered program text")
 	fs.Parse(args)
 	e := harness.Get(*engine)
 	if e == nil {
 		return 2
 	}
 	sc := e.Gen(envSeed(), *idx, *tier)
+	if *srcOnly {
+		if tx, ok := e.(harness.Texter); ok {
+			fmt.Println(tx.Text(sc))
+		}
+		return 0
+	}
 	b, _ := json.MarshalIndent(sc, "", " ")
 	fmt.Println(string(b))
 	if *run {
